@@ -69,7 +69,7 @@ func (fc *FnCtx) callEffects(cc *ssa.CallCommon) effects {
 	if fc.eng.isSpecFn(callee) {
 		return eff
 	}
-	if c := fc.eng.contractFor(callee); c != nil && len(c.Logical) == 0 {
+	if c := fc.eng.contractFor(callee); c != nil && fc.logicalCompatible(c) {
 		eff := fc.contractEffects(c)
 		if ms, ok := fc.modSorts(c, callee); ok {
 			eff.sorts = ms
@@ -186,7 +186,7 @@ func (fc *FnCtx) call(ins ssa.Instruction, cc *ssa.CallCommon) {
 	}
 	// a contract with logical variables cannot be applied at a call site (the caller would have
 	// to supply witnesses): the callee is then treated like a function without contract
-	if c := fc.eng.contractFor(callee); c != nil && len(c.Logical) == 0 {
+	if c := fc.eng.contractFor(callee); c != nil && fc.logicalCompatible(c) {
 		var names []string
 		var typs []types.Type
 		for _, p := range callee.Params {
@@ -322,6 +322,22 @@ func (fc *FnCtx) freshResult(res *types.Tuple) Value {
 }
 
 // applyContract: assert pre, apply frame, assume post.
+// logicalCompatible: a contract with logical variables can be applied at a call site only if the
+// caller's own contract declares logical variables of the same names; the callee's are then
+// instantiated with the caller's (same name = same object). Otherwise the callee is treated as
+// a function without contract.
+func (fc *FnCtx) logicalCompatible(c *Contract) bool {
+	if c.LogicalDef {
+		return true // witnesses exist by declaration: fresh symbols at the call site
+	}
+	for _, lv := range c.Logical {
+		if _, ok := fc.logical[lv]; !ok {
+			return false
+		}
+	}
+	return true
+}
+
 func (fc *FnCtx) applyContract(c *Contract, cname string, names []string, typs []types.Type, args []Value, results *types.Tuple, pos token.Pos, callee *ssa.Function) Value {
 	if c.Assumed {
 		fc.usedAssumed[c.Pkg+"::"+c.Func] = true
@@ -347,6 +363,45 @@ func (fc *FnCtx) applyContract(c *Contract, cname string, names []string, typs [
 			env.binds[n] = binding{args[i], typs[i]}
 		}
 	}
+	freshLogical := map[string]bool{}
+	for _, lv := range c.Logical {
+		if b, ok := fc.logical[lv]; ok {
+			env.binds[lv] = b
+			continue
+		}
+		// the caller has no logical variable of this name: the callee's contract declares that the
+		// clauses mentioning it only define it, so a witness exists; a fresh symbol stands for it
+		var lt types.Type = specIntType
+		if te, ok := c.LogicalTypes[lv]; ok && callee != nil && callee.Pkg != nil {
+			at := token.NoPos
+			sc := callee.Pkg.Pkg.Scope()
+			for _, n := range sc.Names() {
+				o := sc.Lookup(n)
+				if strings.Contains(fc.eng.prog.Fset.Position(o.Pos()).Filename, "verif_contracts") {
+					at = o.Pos()
+					break
+				}
+			}
+			if tv, err := types.Eval(fc.eng.prog.Fset, callee.Pkg.Pkg, at, te); err == nil && tv.IsType() {
+				lt = tv.Type
+			}
+		}
+		sh := shapeOf(lt, fc.mode)
+		if sh.K != KLeaf {
+			continue
+		}
+		env.binds[lv] = binding{Leaf(fc.freshConst("witness_"+lv, sh.Sort)), lt}
+		freshLogical[lv] = true
+		fc.usedAssumed[cname+": requires clauses mentioning logical "+lv+" are definitional (a witness exists)"] = true
+	}
+	mentionsFresh := func(text string) bool {
+		for lv := range freshLogical {
+			if containsIdent(text, lv) {
+				return true
+			}
+		}
+		return false
+	}
 	env.oldBinds = map[string]binding{}
 	for k, v := range env.binds {
 		env.oldBinds[k] = v
@@ -363,6 +418,13 @@ func (fc *FnCtx) applyContract(c *Contract, cname string, names []string, typs [
 		t, sks, err := fc.specBoolGoal(env, r.Text)
 		if err != nil {
 			fc.unbound = append(fc.unbound, fmt.Sprintf("call %s requires %q: %v", cname, r.Text, err))
+			continue
+		}
+		if mentionsFresh(r.Text) {
+			// definitional clause about a witness chosen here: assumed, not proved
+			if qt, qerr := fc.specBool(env, r.Text); qerr == nil {
+				fc.assume(qt)
+			}
 			continue
 		}
 		o := fc.oblige("pre", cname+": "+r.Text, pos, t)
@@ -1157,6 +1219,14 @@ func (fc *FnCtx) dynamicCall(cc *ssa.CallCommon, args []Value, pos token.Pos) Va
 			}
 		}
 	}
+	if fc.pureMode {
+		// inside a spec function a function-typed parameter is an uninterpreted function
+		if _, ok := cc.Value.(*ssa.Parameter); ok && sig.Results().Len() == 1 && fv.K == KLeaf {
+			if v, ok := fc.applyUF(fv.T, args, sig.Results().At(0).Type()); ok {
+				return v
+			}
+		}
+	}
 	fc.notes = append(fc.notes, "dynamic call of function value")
 	fc.havocAll("dyncall")
 	return fc.freshResult(sig.Results())
@@ -1471,4 +1541,22 @@ func (fc *FnCtx) applyUF(fn Term, args []Value, rt types.Type) (Value, bool) {
 	name += "_" + sortTag(rs.Sort)
 	fc.eng.needApply(name, ts, rs.Sort)
 	return Leaf(mk(rs.Sort, name, ts...)), true
+}
+
+// containsIdent: name occurs in text as a whole identifier.
+func containsIdent(text, name string) bool {
+	isId := func(c byte) bool {
+		return c == '_' || (c >= 'a' && c <= 'z') || (c >= 'A' && c <= 'Z') || (c >= '0' && c <= '9')
+	}
+	for i := 0; ; {
+		j := strings.Index(text[i:], name)
+		if j < 0 {
+			return false
+		}
+		a, b := i+j, i+j+len(name)
+		if (a == 0 || !isId(text[a-1])) && (b >= len(text) || !isId(text[b])) {
+			return true
+		}
+		i = b
+	}
 }
